@@ -27,7 +27,7 @@ def universe(ctx, quick_l=2, quick_names=("v1", "v2")):
 def special_lists(l):
     """thorough: special values on top of the main alphabet (0, r+v1 == v1 mod r, 2^256-1), one special entry per list"""
     out = []
-    for nm in ("0", "r+v1", "max", "r"):
+    for nm in ("0", "r+v1", "max", "r", "sp"):
         for i in range(l):
             for om in (False, True):
                 out.append({"e": [[i, nm]], "omit": om})
@@ -54,7 +54,7 @@ def transitions(state, U, vals, tier):
         lists = lists + special_lists(U["l"])
     else:
         # ids >= 2r need two subtractions of r (2^256/r is about 2.2): one unreduced id on every slot also in the quick tier
-        lists = lists + [L for L in special_lists(U["l"]) if len(L["e"]) == 1 and L["e"][0][1] == "max" and not L["omit"]]
+        lists = lists + [L for L in special_lists(U["l"]) if len(L["e"]) == 1 and L["e"][0][1] in ("max", "sp") and not L["omit"]]
     out = []
     if state is None:
         for L in lists:
